@@ -1,6 +1,8 @@
 // vmain.cpp - entry point of a corpus binary:  <bin> dump            -> NODE/NAME/ACT/REG lines
 //                                             <bin> run <cases>     -> one RUN line per case "gid cfg hexinput"
 #include "vharness.hpp"
+#include <tao/pegtl/buffer_input.hpp>
+#include <string_view>
 #include <cstdlib>
 #include <fstream>
 #include <iostream>
@@ -16,11 +18,53 @@ static std::string unhex( const std::string& h )
    }
    return r;
 }
+// Input-class sanity of the tree under test, printed with the table dump (the corpus itself always constructs its inputs from
+// a pointer pair): the length-taking memory_input constructors must agree on data with embedded NUL bytes, and a buffer_input
+// fed by a reader that delivers one byte per call must satisfy require( n ).
+struct selftest_reader
+{
+   const char* p;
+   const char* e;
+   selftest_reader( const char* b, const char* en ) : p( b ), e( en ) {}
+   std::size_t operator()( char* buffer, const std::size_t length )
+   {
+      if( ( p == e ) || ( length == 0 ) ) {
+         return 0;
+      }
+      buffer[ 0 ] = *p++;
+      return 1;
+   }
+};
+static void input_selftest()
+{
+   using namespace tao::pegtl;
+   const std::string d( "ab\0cd\0", 6 );
+   std::string bad;
+   {
+      const memory_input<> a( d.data(), d.size(), "s" );
+      const memory_input<> b( d, "s" );
+      const memory_input<> c( std::string_view( d ), "s" );
+      const memory_input< tracking_mode::lazy > l( d, "s" );
+      const string_input<> si( d, "s" );
+      if( a.size( 0 ) != 6 || b.size( 0 ) != 6 || c.size( 0 ) != 6 || l.size( 0 ) != 6 || si.size( 0 ) != 6 ) {
+         bad += " memory_input/string_input constructors disagree on the length of data with embedded NUL bytes;";
+      }
+   }
+   {
+      buffer_input< selftest_reader, eol::lf_crlf, std::string, 1 > in( "s", 16, d.data(), d.data() + d.size() );
+      if( in.size( 4 ) < 4 || in.peek_char( 3 ) != 'c' ) {
+         bad += " buffer_input::size( 4 ) does not make 4 bytes available when the reader delivers one byte per call;";
+      }
+   }
+   std::printf( "SELFTEST %s\n", bad.empty() ? "ok" : ( "BAD" + bad ).c_str() );
+}
+
 int main( int argc, char** argv )
 {
    register_all();
    const std::string mode = argc > 1 ? argv[ 1 ] : "dump";
    if( mode == "dump" ) {
+      input_selftest();
       vh::print_table();
       for( const auto& e : vh::registry() ) {
          std::printf( "REG %d %d %s\n", e.gid, e.root, e.cfg.c_str() );
